@@ -9,6 +9,7 @@ package main
 //	toFloat64(COUNT()) / 1.5               -> Sep " / " [Raw call; Raw literal | IntV n]  (a literal with a fraction becomes a FloatV in prep)
 //	intDiv(x, n) * m                       -> Sep " * " [Fn intDiv [Id x; IntV n]; IntV m]
 //	mapFilter((k,v) -> k [NOT] IN (..), c) -> Sep "" [Raw; Raw op; Raw; Sep "," names; Raw; c; Raw]
+//	mapFilter((k,v) -> 0, c)               -> Sep "" [Raw "mapFilter((k,v) -> 0, "; c; Raw ")"]
 //	quantile(p)(value)                     -> Sep "" [Raw "quantile("; Raw p; Raw ")(value)"]
 //	f(path, ...) for aggregate / scalar calls over column paths -> Raw text (SqlEvalAgg parses the call from its text)
 
@@ -145,6 +146,9 @@ func mnorm(n *sqlparse.Node) *sqlparse.Node {
 	case "fn":
 		if callNames[n.S] && pure(n) {
 			return raw(ntext(n))
+		}
+		if n.S == "mapFilter" && len(n.Kids) == 2 && n.Kids[0].Kind == "raw" && n.Kids[0].S == "(k,v) -> 0" { // by ()
+			return &sqlparse.Node{Kind: "sep", S: "", Kids: []*sqlparse.Node{raw("mapFilter((k,v) -> 0, "), mnorm(n.Kids[1]), raw(")")}}
 		}
 		if n.S == "mapFilter" && len(n.Kids) == 2 && n.Kids[0].Kind == "in" && n.Kids[0].L != nil && n.Kids[0].L.Kind == "raw" {
 			op := ""
